@@ -203,9 +203,20 @@ func (h *httpAnalysis) analyse(key *types.Func, body *ast.BlockStmt, results *ty
 		// zero-ness binding: `v := helper(w, r)`
 		var bindCall *ast.CallExpr
 		var bindObj types.Object
-		if as, ok := n.(*ast.AssignStmt); ok && len(as.Lhs) == 1 && len(as.Rhs) == 1 {
+		// (or `v, ok := helper(w, r)`: the trailing bool is the indicator)
+		if as, ok := n.(*ast.AssignStmt); ok && len(as.Lhs) >= 1 && len(as.Rhs) == 1 {
 			if call, ok := as.Rhs[0].(*ast.CallExpr); ok {
-				if id, ok := as.Lhs[0].(*ast.Ident); ok {
+				ind := as.Lhs[0]
+				if len(as.Lhs) > 1 {
+					ind = nil
+					last := as.Lhs[len(as.Lhs)-1]
+					if t := h.pkg.TypesInfo.TypeOf(last); t != nil {
+						if b, isB := t.Underlying().(*types.Basic); isB && b.Kind() == types.Bool {
+							ind = last
+						}
+					}
+				}
+				if id, ok := ind.(*ast.Ident); ok && id.Name != "_" {
 					bindCall, bindObj = call, h.pkg.TypesInfo.ObjectOf(id)
 				}
 			}
@@ -279,9 +290,9 @@ func (h *httpAnalysis) analyse(key *types.Func, body *ast.BlockStmt, results *ty
 				cur = next
 			}
 		}
-		if ret, ok := n.(*ast.ReturnStmt); ok && results != nil && results.Len() == 1 && len(ret.Results) == 1 {
+		if ret, ok := n.(*ast.ReturnStmt); ok && results != nil && indicatorResult(results) >= 0 && len(ret.Results) == results.Len() {
 			zero := false
-			e := ast.Unparen(ret.Results[0])
+			e := ast.Unparen(ret.Results[indicatorResult(results)])
 			if id, ok := e.(*ast.Ident); ok && id.Name == "nil" {
 				zero = true
 			}
@@ -310,6 +321,16 @@ func (h *httpAnalysis) analyse(key *types.Func, body *ast.BlockStmt, results *ty
 	fl := &Flow{Pkg: h.pkg, Body: body, Init: one(0)}
 	fl.Node = step
 	fl.Cond = func(cond ast.Expr, branch bool, s int) StateSet {
+		// a bound bool indicator tested as `ok` (condDeep strips the `!`)
+		if id, isID := ast.Unparen(cond).(*ast.Ident); isID {
+			if slot, bound := slots[h.pkg.TypesInfo.ObjectOf(id)]; bound {
+				bit := hN0 << uint(slot)
+				if (s&bit != 0) != !branch {
+					return 0
+				}
+			}
+			return one(s)
+		}
 		be, ok := ast.Unparen(cond).(*ast.BinaryExpr)
 		if !ok || (be.Op != token.EQL && be.Op != token.NEQ) {
 			return one(s)
@@ -360,6 +381,21 @@ func (h *httpAnalysis) analyse(key *types.Func, body *ast.BlockStmt, results *ty
 	report = nil
 	sort.Slice(viol, func(i, j int) bool { return viol[i].pos < viol[j].pos })
 	return
+}
+
+// indicatorResult: the result of a parse-or-respond helper whose zero value
+// says "an error response was sent": the only result, or a trailing bool.
+func indicatorResult(results *types.Tuple) int {
+	switch {
+	case results == nil || results.Len() == 0:
+		return -1
+	case results.Len() == 1:
+		return 0
+	}
+	if b, ok := results.At(results.Len() - 1).Type().Underlying().(*types.Basic); ok && b.Kind() == types.Bool {
+		return results.Len() - 1
+	}
+	return -1
 }
 
 func sumResponds(ss StateSet) bool {
